@@ -137,6 +137,8 @@ def run_shoot_pair(shoot, mod, pair, pre=None):
     cwd = mod / pair.sub / "src"
     if pre:
         pre(shoot, mod, pair)
+        if pair.status != "ok":
+            return
     r = l2.run_shoot(shoot, cwd, mapgen.shoot_args(pair.spec), timeout=60)
     pair.shoot = {"rc": r["rc"], "err": r["err"][-1500:], "panicked": r["panicked"], "timed_out": r["timed_out"]}
     if r["rc"] != 0 or r["panicked"] or r["timed_out"]:
@@ -313,12 +315,12 @@ def coq_case(pair, c):
 
 
 HEADER = ("From Coq Require Import String List ZArith NArith Bool.\n"
-          "From Shoot Require Import Model.MapVal Model.Mapper Model.MapperEval Model.MapperSpec Corr.MapperCorr.\n"
+          "From Shoot Require Import Model.MapVal Model.Mapper Model.MapperEval Model.MapperSpec Model.MapperSpec15 Corr.MapperCorr.\n"
           "Import ListNotations.\nLocal Open Scope string_scope.\nLocal Open Scope list_scope.\n"
           "Set Printing Width 1000000.\nSet Printing Depth 1000000.\n")
 
 
-def coq_verdicts(run, pairs, tag="mc", shard_cases=250, par=6, extra_defs="", fn="mismatches", cert=None):
+def coq_verdicts(run, pairs, tag="mc", shard_cases=250, par=6, extra_defs="", fn="mismatches", cert=None, guard="pair_guard"):
     """returns {(pair idx, case idx): verdict} for the non-zero verdicts, and {pair idx: in_guard}"""
     shards, cur, n = [], [], 0
     for p in pairs:
@@ -343,7 +345,7 @@ def coq_verdicts(run, pairs, tag="mc", shard_cases=250, par=6, extra_defs="", fn
                 index.append((p.idx, ci))
                 terms.append(coq_case(p, c))
         guards = "Definition G := Eval vm_compute in [%s].\nPrint G.\n" % "; ".join(
-            "(%d%%N, if pair_guard (ps_env PS%d) (ps_fuel PS%d) (ps_jobs PS%d) then 1%%N else 0%%N)" % (p.idx, p.idx, p.idx, p.idx)
+            "(%d%%N, if %s (ps_env PS%d) (ps_fuel PS%d) (ps_jobs PS%d) then 1%%N else 0%%N)" % (p.idx, guard, p.idx, p.idx, p.idx)
             for p in ps)
         ways = "Definition W := Eval vm_compute in way_mismatches [%s].\nPrint W.\n" % "; ".join(
             "(%d%%N, PS%d, %s, %s)" % (p.idx, p.idx, "true" if p.methods[0] else "false", "true" if p.methods[1] else "false")
